@@ -9,6 +9,7 @@ package absnfs
 import (
 	"bytes"
 	"encoding/binary"
+	"errors"
 	"io"
 	"os"
 	"path"
@@ -46,11 +47,14 @@ func (h *NFSProcedureHandler) handleCreate(body io.Reader, reply *RPCReply, auth
 	newUID := authCtx.EffectiveUID
 	newGID := authCtx.EffectiveGID
 	var isExclusive bool
+	var setSize bool
+	var newSize uint64
 	if createHow == 0 || createHow == 1 {
 		sattr, err := decodeSattr3(body)
 		if err != nil {
 			return nfsErrorWithWcc(reply, GARBAGE_ARGS), nil
 		}
+		setSize, newSize = sattr.SetSize, sattr.Size
 		if sattr.SetMode {
 			mode = sattr.Mode
 		}
@@ -93,11 +97,32 @@ func (h *NFSProcedureHandler) handleCreate(body io.Reader, reply *RPCReply, auth
 
 	newNode, err := h.server.handler.Create(node, name, attrs)
 	if err != nil {
-		// For EXCLUSIVE creates, if file already exists, return success
-		// (simplified idempotent behavior per RFC 1813 - full verifier comparison not implemented)
-		if isExclusive && os.IsExist(err) {
+		// The name already exists; Create never opens, truncates or rewrites an
+		// existing object. GUARDED fails with NFS3ERR_EXIST below. UNCHECKED
+		// returns the existing regular file, cut to the requested length only
+		// when the request sets size explicitly. For EXCLUSIVE creates, if file
+		// already exists, return success (simplified idempotent behavior per
+		// RFC 1813 - full verifier comparison not implemented).
+		if errors.Is(err, os.ErrExist) && createHow != 1 {
 			lookupPath := path.Join(node.path, name)
 			existingNode, lookupErr := h.server.handler.Lookup(lookupPath)
+			if lookupErr == nil && !isExclusive {
+				existingNode.mu.RLock()
+				regular := existingNode.attrs.Mode.IsRegular()
+				existingNode.mu.RUnlock()
+				if !regular {
+					lookupErr = err // a directory or symlink is in the way: NFS3ERR_EXIST
+				} else if setSize {
+					if maxFileSize := h.server.handler.policy.Load().MaxFileSize; maxFileSize > 0 && newSize > uint64(maxFileSize) {
+						return nfsErrorWithWcc(reply, NFSERR_FBIG), nil
+					}
+					if truncErr := existingNode.Truncate(int64(newSize)); truncErr != nil {
+						return nfsErrorWithWcc(reply, mapError(truncErr)), nil
+					}
+					h.server.handler.attrCache.Invalidate(lookupPath)
+					existingNode, lookupErr = h.server.handler.Lookup(lookupPath)
+				}
+			}
 			if lookupErr == nil {
 				dirPostAttrs, _ := h.server.handler.GetAttr(node)
 				if dirPostAttrs == nil {
